@@ -136,6 +136,21 @@ func runC10(c *core.Ctx) {
 			}
 		}
 		c.Logf("AU %d: %d units -> %d payloads %s", k, len(au.units), len(payloads), heads(payloads))
+		if !foreign && !opts.disableStapA {
+			// would the SPS+PPS STAP-A of this call exceed the MTU?
+			var sps, pps []byte
+			for _, u := range au.units {
+				switch u[0] & 0x1F {
+				case 7:
+					sps = u
+				case 8:
+					pps = u
+				}
+			}
+			if sps != nil && pps != nil && 1+2+len(sps)+2+len(pps) > mtu {
+				c.Probe("stapa-larger-than-mtu")
+			}
+		}
 		for i, p := range payloads {
 			if len(p) > 1 && p[0]&0x1F == 28 {
 				nontrivial = true
